@@ -116,6 +116,11 @@ def main():
     except Exception:
         infra_error = traceback.format_exc()
         log(infra_error)
+    # a runner that could not even build or run some of its cases did not explore what it says it explored
+    herr = {k: v for k, v in ctx.dist.items() if k.startswith("harness-error")}
+    if herr and infra_error is None:
+        infra_error = "the harness failed on %s cases: %s; %s" % (sum(herr.values()), herr, ctx.notes[:2])
+        log(infra_error)
 
     broken = bool(proof_problems or tie_problems or ctx.mismatches)
     if broken and not ctx.violations and not args.replay and infra_error is None:
